@@ -1,4 +1,4 @@
 SPECIFICATION Spec
-CONSTANTS Tier = "big" PadFix = TRUE AppendFix = TRUE
+CONSTANTS Tier = "big" PadFix = TRUE AppendFix = TRUE PoolFix = TRUE
 INVARIANTS NotBad
 CHECK_DEADLOCK FALSE
